@@ -342,6 +342,19 @@ def body_free(c, ctx):
             if (A != A0).nnz:
                 ctx.fail('free_running_differs', f'{c} nthreads={nth}', rect=ub.Nbfun != vb.Nbfun)
                 break
+        # other result dtypes: the threaded kernel returns what the serial kernel returns (complex parts, single precision)
+        def formc(u, v, w):
+            return (1.0 + 0.5j) * first_scalar(u) * first_scalar(v) * first_scalar(w['c']) + 0.25j * first_scalar(u) * w.x[0]
+        for dt, fm_ in ((np.complex128, formc), (np.float32, form)):
+            Ad = BilinearForm(fm_, dtype=dt).assemble(ub, vb, c=param)
+            for nth in (1, 2, P + 1):
+                At = BilinearForm(fm_, dtype=dt, nthreads=nth).assemble(ub, vb, c=param)
+                if At.dtype != Ad.dtype or At.shape != Ad.shape or (At != Ad).nnz:
+                    ctx.fail('threaded_dtype_differs', f'{c} nthreads={nth} dtype={np.dtype(dt).name}: result dtype {At.dtype} vs {Ad.dtype}, '
+                             f'max difference {abs(At - Ad).max() if At.shape == Ad.shape else "shape"}', rect=ub.Nbfun != vb.Nbfun)
+                    break
+            if ctx.failures:
+                break
         # ONE threaded form object used for several assemblies in a row, as asm() over lists of bases does: trial and test
         # spaces exchanged (same number of local pairs, other local shape), and back
         A0T = serial(vb, ub, param)
